@@ -42,6 +42,7 @@ pub struct Profile {
     pub p_many_aggs: f64,
     pub p_hidden_keys: f64,
     pub p_keys_only: f64,
+    pub p_nested_published: f64,
     pub p_schema_path: f64,
     pub p_cond_agg: f64,
     pub p_inner_where: f64,
@@ -89,6 +90,7 @@ impl Profile {
             p_many_aggs: 0.02,
             p_hidden_keys: 0.03,
             p_keys_only: 0.0,
+            p_nested_published: 0.0,
             p_schema_path: 0.0,
             p_cond_agg: 0.04,
             p_inner_where: 0.5,
@@ -103,12 +105,12 @@ impl Profile {
             p_multi_dp: 0.0,
         };
         match prop {
-            "C03" => Profile { p_many_aggs: 0.1, p_on_or: 0.04, p_cross: 0.04, p_outer_kinds: 0.05, p_multi_dp: 0.06, p_shared_cte: 0.05, p_nested_group: 0.03, ..base },
+            "C03" => Profile { p_nested_published: 0.5, p_nested: 0.12, p_many_aggs: 0.1, p_on_or: 0.04, p_cross: 0.04, p_outer_kinds: 0.05, p_multi_dp: 0.06, p_shared_cte: 0.05, p_nested_group: 0.03, ..base },
             "C01" => Profile { p_nested_by_id: 0.04, p_on_or: 0.06, p_cross: 0.06, p_outer_kinds: 0.06, p_shared_cte: 0.03, p_nested_group: 0.05, ..base },
             "C09" => Profile { p_one_to_one: 0.3, p_hidden_keys: 0.0, p_schema_path: 0.1, p_cond_agg: 0.15, p_where_fn: 0.2, p_where_col_cmp: 0.2, p_math_exprs: 0.2, p_count_of_unique: 0.6, p_fn_exprs: 0.25, p_modulo: 0.12, p_alias_shadow: 0.4, public_keys_only: true, benign_data: true, p_distinct: 0.12, p_row_privacy: 0.15, p_grouped: 0.65, ..base },
             "C04" => Profile { p_hidden_keys: 0.1, p_where_fn: 0.2, p_unsupported_agg: 0.08, p_key_via_agg: 0.25, p_nested_group: 0.08, p_nested: 0.0, need_private_key: true, p_grouped: 1.0, p_outer: 0.0, p_distinct: 0.05, ..base },
             "C16" => Profile { benign_data: true, full_catalogue: true, p_public_table: 1.0, p_synthetic: 0.3, ..base },
-            "C02" => Profile { p_keys_only: 0.06, p_hidden_keys: 0.08, p_where_fn: 0.1, p_pu_without_root: 0.08, p_extra_select: 0.05, p_join_of_subqueries: 0.05, p_on_or: 0.04, p_unsupported_agg: 0.08, p_cross: 0.04, p_outer_kinds: 0.05, p_multi_dp: 0.04, p_nested_group: 0.03, p_shared_cte: 0.08, p_plain: 0.25, p_synthetic: 0.4, p_public_table: 0.5, p_outer: 0.2, ..base },
+            "C02" => Profile { p_nested_published: 0.4, p_keys_only: 0.06, p_hidden_keys: 0.08, p_where_fn: 0.1, p_pu_without_root: 0.08, p_extra_select: 0.05, p_join_of_subqueries: 0.05, p_on_or: 0.04, p_unsupported_agg: 0.08, p_cross: 0.04, p_outer_kinds: 0.05, p_multi_dp: 0.04, p_nested_group: 0.03, p_shared_cte: 0.08, p_plain: 0.25, p_synthetic: 0.4, p_public_table: 0.5, p_outer: 0.2, ..base },
             _ => base,
         }
     }
@@ -1436,6 +1438,16 @@ pub fn generate(seed: u64, run: u64, prop: &str) -> Generated {
             let (q, c) = own_numeric[rg.usize(own_numeric.len())];
             let col = q.split('.').nth(1).unwrap().to_string();
             cte = Some(format!("SELECT avg(b.{}) AS m FROM {} AS b", col, base_t.name));
+            // ... read through a projection (own stream): the DP sub-query then reaches the join as a
+            // *published* relation (a Map over a DP Reduce), not as the DP Reduce itself
+            let mut rnp = Rng::stream(seed, run, "nested_published");
+            if rnp.chance(profile.p_nested_published) {
+                cte = Some(match rnp.below(2) {
+                    0 => format!("SELECT x.m AS m FROM (SELECT avg(b.{}) AS m FROM {} AS b) AS x", col, base_t.name),
+                    _ => format!("SELECT x.m + 0 AS m FROM (SELECT avg(b.{}) AS m FROM {} AS b) AS x", col, base_t.name),
+                });
+                tags.push("nested_published".into());
+            }
             let scale = match &c.ty {
                 ColType::IntRange { lo, hi } => (hi - lo).abs() as f64 + 1.0,
                 ColType::FloatRange { lo, hi } => (hi - lo).abs() + 1.0,
